@@ -17,7 +17,8 @@ EXPLANATION = (
     "circuit id; closed list of functions that write the tables and of "
     "functions that call remove_* (new private helpers of a listed function and super() overrides inherit the permission); nothing "
     "reachable from on_create removes an entry; no except-handler that can receive CryptoException (class hierarchy) leads to a "
-    "remove_* call. Interleavings of concurrent circuits are not explored."
+    "remove_* call; layers of an own circuit are removed only when it has at least one keyed hop (a circuit whose first CREATE is "
+    "outstanding accepts plaintext cells only). Interleavings of concurrent circuits are not explored."
 )
 
 TC = "ipv8/messaging/anonymization/community.py"
